@@ -183,6 +183,9 @@ func vWatchEnd()                   {}
 // statements so far; natively goroutines run by themselves.
 func vRunGoroutines() {}
 
+// vDebug prints the engine's view of a value when tracing; nothing natively.
+func vDebug(label string, v interface{}) {}
+
 func vNondetFloat64(label string) float64 {
 	s, ok := vnext(label)
 	if !ok || s == "" {
